@@ -79,6 +79,21 @@ template <typename T, typename U> static void run_ctor(const char *name, U v) {
   std::printf(" | "); out_oracle<T>((i128)v); std::putchar('\n');
 }
 
+// mixed-operand operators SafeInt<T> op U: the plain operand goes through the checked constructor first
+template <typename T, typename U> static void run_mix(const char *name, char op, T a, U b) {
+  std::printf("%s ", name); print_i128((i128)a); std::putchar(' '); print_i128((i128)b); std::putchar(' ');
+  if (g_flush) std::fflush(stdout);
+  try {
+    T r = op == '+' ? val(mp::SafeInt<T>(a) + b) : val(mp::SafeInt<T>(a) * b);
+    std::printf("ret "); print_i128((i128)r);
+  } catch (const mp::OverflowError &) { std::printf("throw"); }
+  std::printf(" | ");
+  i128 ea = (i128)a, eb = (i128)b;
+  if (eb < lo<T>() || eb > hi<T>()) std::printf("throw");
+  else out_oracle<T>(op == '+' ? ea + eb : ea * eb);   // |a|,|b| < 2^63 here only for T=int: product fits i128
+  std::putchar('\n');
+}
+
 // operand sets -------------------------------------------------------------
 template <typename T> static std::vector<T> operands(bool thorough, int nrand) {
   std::vector<T> v;
@@ -152,5 +167,13 @@ int main(int argc, char **argv) {
 #define X(T, tag) ctors_to<T>(tag, thorough);
   TYPES(X)
 #undef X
+  {
+    std::vector<int> ai = operands<int>(thorough, thorough ? 200 : 16);
+    std::vector<unsigned long> bu = operands<unsigned long>(thorough, thorough ? 200 : 16);
+    for (int d = -2; d <= 2; ++d) { bu.push_back((unsigned long)((long)INT32_MAX + d)); }
+    for (int a : ai) for (int b : ai) { run_mix<int, int>("mixadd_i_i", '+', a, b); run_mix<int, int>("mixmul_i_i", '*', a, b); }
+    for (int a : ai) for (unsigned long b : bu) { run_mix<int, unsigned long>("mixadd_i_ul", '+', a, b); run_mix<int, unsigned long>("mixmul_i_ul", '*', a, b); }
+    for (unsigned long a : bu) for (unsigned long b : bu) run_mix<unsigned long, unsigned long>("mixadd_ul_ul", '+', a, b);
+  }
   return 0;
 }
